@@ -26,6 +26,13 @@ def c18_isa(endian):
                 'index_operands': {'n': {'type': 'numeric', 'argument': {'size': 8, 'byte_align': True},
                                          'bytecode': {'value': 0, 'size': 2}},
                                    'rb': {'type': 'register', 'register': 'b', 'bytecode': {'value': 1, 'size': 2}}}}}}
+    # plain registers with decorators (sp++, --a, b!): the register name is matched in any letter case
+    isa['operand_sets']['decs'] = {'operand_values': {
+        'pinc': {'type': 'register', 'register': 'sp', 'bytecode': {'value': 0, 'size': 2}, 'decorator': {'type': 'plus_plus', 'is_prefix': False}},
+        'pdec': {'type': 'register', 'register': 'a', 'bytecode': {'value': 1, 'size': 2}, 'decorator': {'type': 'minus_minus', 'is_prefix': True}},
+        'bang': {'type': 'register', 'register': 'b', 'bytecode': {'value': 2, 'size': 2}, 'decorator': {'type': 'exclamation', 'is_prefix': False}},
+        'atb': {'type': 'register', 'register': 'b', 'bytecode': {'value': 3, 'size': 2}, 'decorator': {'type': 'at', 'is_prefix': True}}}}
+    isa['instructions']['psh'] = {'bytecode': {'value': 0x33, 'size': 6}, 'operands': {'count': 1, 'operand_sets': {'list': ['decs']}}}
     isa['instructions']['lix'] = {'bytecode': {'value': 0x31, 'size': 6}, 'operands': {'count': 1, 'operand_sets': {'list': ['idx']}}}
     isa['instructions']['liy'] = {'bytecode': {'value': 0x32, 'size': 6}, 'operands': {'count': 1, 'operand_sets': {'list': ['iidx']}}}
     return isa
@@ -74,7 +81,7 @@ def gen_ast(rng):
             vals = [[rng.choice([str(rng.randrange(0, 256)), '$' + format(rng.randrange(0, 256), 'x')])] for _ in range(rng.randrange(1, 5))]
             items.append(('data', rng.choice(['.byte', '.2byte']), vals))
             continue
-        mn = rng.choice(['nop', 'q4', 'inr', 'nib', 'ldi', 'q12', 'tri', 'jmp', 'ldx', 'sel', 'mv2', 'lix', 'liy', 'bra'])
+        mn = rng.choice(['nop', 'q4', 'inr', 'nib', 'ldi', 'q12', 'tri', 'jmp', 'ldx', 'sel', 'mv2', 'lix', 'liy', 'bra', 'psh'])
         lab = rng.choice(defined) if defined and rng.random() < 0.5 else None
         num = str(rng.randrange(0, 16))
         if mn in ('nop', 'q4'):
@@ -103,6 +110,8 @@ def gen_ast(rng):
             ops = [[rng.choice(sorted(c10.ENUM))]]
         elif mn == 'mv2':
             ops = [[R(rng.choice(c10.REGS))], [num]]
+        elif mn == 'psh':
+            ops = [[rng.choice([('dreg', 'sp', '', '++'), ('dreg', 'a', '--', ''), ('dreg', 'b', '', '!'), ('dreg', 'b', '@', '')])]]
         elif mn == 'lix':
             ops = [[R('sp'), '+', rng.choice([num, R('b')])]]
         else:
@@ -131,6 +140,8 @@ def render(items, rng, kinds):
             nm = t[1]
             if 'register-case' in K and rng.random() < 0.7:
                 nm = rng.choice([nm.upper(), nm.capitalize(), nm.upper()])
+            if t[0] == 'dreg':
+                return t[2] + nm + t[3]
             return nm
         return t
 
